@@ -17,7 +17,7 @@ from ..core import outcome
 
 RULE = ("one case = (program of array operations from a small ragged list = TLC state of MC_C07, encoding) replayed on real encoded arrays; "
         "non-trivial = the program has a selection or assignment acting on the result of an earlier selection/copy; distinct by (program, encoding)")
-ALL_OPS = ["rows", "cols", "concat", "copy", "row", "col", "eq", "streq", "streq2", "rslice", "decode", "ravel", "setrow", "setmask"]
+ALL_OPS = ["rows", "cols", "concat", "concat1", "copy", "row", "col", "eq", "streq", "streq2", "rslice", "decode", "ravel", "setrow", "setmask"]
 
 
 def _encodings():
@@ -35,6 +35,8 @@ def _row_index(kind, n):
         return slice(None, None, -1)
     if kind == "mask":
         return np.array([j % 2 == 1 for j in range(n)], dtype=bool)
+    if kind == "listmask":
+        return [j % 2 == 1 for j in range(n)]          # the same mask as a plain Python list
     if kind == "fancy":
         return [-1, 0, 0] if n else []
     if kind == "0:0":
@@ -71,6 +73,8 @@ def check_matrix_vector(v):
                     pool.append(t[:, idx if idx is not None else _col_index(op["sel"])])
                 elif name == "copy":
                     pool.append(t.copy())
+                elif name == "concat1":
+                    pool.append(np.concatenate([t]))
                 elif name == "row":
                     return t[0 if op["r"] == 1 else -1].to_string()
                 elif name == "col":
@@ -157,6 +161,9 @@ def check_vector(v):
                     return None
                 if name == "copy":
                     pool.append(t.copy())
+                    return None
+                if name == "concat1":
+                    pool.append(np.concatenate([t]))
                     return None
                 if name == "row":
                     return t[0 if op["r"] == 1 else -1].to_string()
@@ -260,7 +267,7 @@ def run(ctx):
     quick = ctx.tier == "quick"
     base = {"Symbols": [0, 1], "MaxPool": 3, "Matrix": False}
     plans = [dict(base, MaxRows=2, MaxLen=2, MaxDepth=3, Ops=ALL_OPS, StartArrays="<- AllArrays"),
-             dict(base, MaxRows=3, MaxLen=2, MaxDepth=4, Ops=["rows", "cols", "copy", "setrow", "setmask"], StartArrays="<- DeepStart")]
+             dict(base, MaxRows=3, MaxLen=2, MaxDepth=4, Ops=["rows", "cols", "copy", "concat1", "setrow", "setmask"], StartArrays="<- DeepStart")]
     if not quick:
         plans = [dict(base, MaxRows=3, MaxLen=2, MaxDepth=3, Ops=ALL_OPS, StartArrays="<- AllArrays"),
                  dict(base, MaxRows=3, MaxLen=2, MaxDepth=4, Ops=ALL_OPS, StartArrays="<- DeepStart"),
@@ -272,7 +279,7 @@ def run(ctx):
         vectors += _with_start(res.vectors, None)
     # rectangular arrays as 2-D character matrices; columns also picked by an index list or a mask
     resm = ctx.tlc("MC_C07", tag="MC_C07_matrix", spec="Spec", constants=dict(base, Matrix=True, MaxRows=3, MaxLen=3, MaxDepth=3 if quick else 4,
-                                                                               Ops=["rows", "cols", "copy", "row", "col", "eq", "ravel", "setrow", "setmask"], StartArrays="<- RectStart"),
+                                                                               Ops=["rows", "cols", "copy", "concat1", "row", "col", "eq", "ravel", "setrow", "setmask"], StartArrays="<- RectStart"),
                    invariants=["TypeOK", "Emit"])
     for v in resm.vectors:
         v["_matrix"] = True
